@@ -107,7 +107,6 @@ theorem runLoop_obs (base : TW) (a : OA) (m) (f : Nat) :
 def OA.step (a : OA) : TW.Ev → OA
   | .emit i n =>
     if i ≠ 0 ∨ a.term then a
-    else if n.isTerm && !a.alive then { a with term := true }
     else { a with F := a.F ++ [n], term := n.isTerm }
   | .adv k => { a with now := a.now + k }
   | .run => a.run
@@ -169,20 +168,11 @@ theorem step_sim (a : OA) (w : TW) (ev : TW.Ev) (hev : FifoEv ev) (h : RO a w) :
           apply RO_of <;> simp [OA.step, hT, Notif.isTerm, hsrc, hsub, hal, hterm']
         | true =>
           rw [TW.step_emit_term (mkW base a m) _ _ hn hsrc hterm hsub hal]
-          cases hA : a.alive with
-          | false =>
-            have : fin (mkW base a m).stages = true := by simp [mkW, fin, hA]
-            simp only [this, if_true]
-            rw [show ({ mkW base a m with terminated := 0 :: (mkW base a m).terminated } : TW)
-                  = mkW { base with terminated := 0 :: base.terminated } a m from rfl, hlen, hdn]
-            apply RO_of <;> simp [OA.step, hT, hn, hA, hsrc, hsub]
-          | true =>
-            have : fin (mkW base a m).stages = false := by simp [mkW, fin, hA]
-            simp only [this, Bool.false_eq_true, if_false]
-            rw [show ({ mkW base a m with terminated := 0 :: (mkW base a m).terminated, srcAlive := false } : TW)
-                  = mkW { base with terminated := 0 :: base.terminated, srcAlive := false } a m from rfl,
-              push_emit, hlen, hdn]
-            apply RO_of <;> simp [OA.step, hT, hn, hA, hsrc, hsub]
+          simp only []
+          rw [show ({ mkW base a m with terminated := 0 :: (mkW base a m).terminated, srcAlive := false } : TW)
+                = mkW { base with terminated := 0 :: base.terminated, srcAlive := false } a m from rfl,
+            push_emit, hlen, hdn]
+          apply RO_of <;> simp [OA.step, hT, hn, hsrc, hsub]
     · have ha : a.step (.emit i n) = a := by simp [OA.step, hi]
       rw [ha]
       cases hc : base.terminated.contains i with
